@@ -17,10 +17,18 @@ import (
 
 func init() {
 	register("C04", func(tier, replay string) int { return checkConv("C04", "nsx", tier, replay) })
+	register("C01", func(tier, replay string) int { return checkConv("C01", "asa", tier, replay) })
+	register("C02", func(tier, replay string) int { return checkConv("C02", "ios", tier, replay) })
 	register("C03", func(tier, replay string) int { return checkConv("C03", "panos", tier, replay) })
 }
 
 var convRules = map[string]string{
+	"asa": "1-3 interfaces, ACLs of 0-12 entries over unique hosts/nets/ports with tcp/udp/icmp/ip, shared network object-groups, log variants, in/out bindings, v4/v6 routes; " +
+		"device = target after 0-5 edits (generated -DRC- names, entry extra/missing/moved/swapped, log option, group members few/many changed, group duplicated/merged, left-over generated objects, " +
+		"route gateway/missing/extra, binding missing/extra, ACL shared by interfaces), printed in device spelling (named ports, mask notation, log level names), plus an unmanaged layer " +
+		"(manual ACLs and groups, interface unknown to Netspoc, snmp/ntp/logging/aaa-server/policy-map lines, unmanaged group-policy)",
+	"ios": "1-3 interfaces with in/out ACLs of arbitrary permit/deny block structure, log/log-input, routes; device = target after 0-5 edits as for ASA, in classic or IOS-XE spelling with sequence numbers, " +
+		"plus unmanaged ACLs, a shut-down loopback interface, line vty, snmp/ntp lines and routes of an unmanaged VRF",
 	"panos": "1-2 targeted vsys with 0-7 rules over address lists, address-groups, any, services, application-default, optional unknown attributes; " +
 		"device = target after 0-4 edits (rule missing / extra / reordered / names shifted so that they clash, group renamed / few or many members changed / names swapped / duplicated, " +
 		"address or service with equal name but other value, rule attribute or member list changed, left-over objects, unknown attribute on an address) plus a foreign vsys and <shared> objects",
